@@ -415,6 +415,9 @@ func runCheck(id string, spec propSpec, tier string, seed uint64) int {
 	knownLines := map[string]string{}
 	knownActive := map[string]bool{}
 	for _, f := range ffs.Findings {
+		if os.Getenv("VERIF_SKIP_WITNESS") != "" {
+			break // experiments only: measure what the batch alone finds
+		}
 		if f.Status == "fixed" {
 			// A fixed entry suppresses nothing; its witness is replayed as a
 			// regression test and must pass on the repaired tree.
